@@ -250,7 +250,7 @@ func VH11c_transport_options() {
 // replying side (rep / respondent): the reply is sent while the asking
 // connection goes away, another request arrives or the socket closes.
 func VH11d_answer() {
-	protos := []string{"req", "surveyor", "rep", "respondent"}
+	protos := []string{"req", "surveyor", "rep", "respondent", "sub"}
 	proto := protos[verif.Param("proto", 0)]
 	lab := "C11/answer/" + proto
 	sock := vp.New(proto)
@@ -291,6 +291,9 @@ func VH11d_answer() {
 			return
 		}
 		wire = append(append([]byte{}, p1.Sent[0].H...), 'r')
+	} else if proto == "sub" {
+		// a subscriber with a matching subscription: publications race with unsubscribe / resize / close
+		verif.Assert(setopt(mangos.OptionSubscribe, []byte{}) == nil, lab+"/subscribe")
 	} else {
 		p1.Deliver([]byte{0x80, 0, 0, 7, 'q'})
 		verif.Quiesce()
@@ -313,7 +316,11 @@ func VH11d_answer() {
 		var err error
 		switch ops[op] {
 		case "send":
-			err = send([]byte{'z'})
+			if proto == "sub" {
+				err = setopt(mangos.OptionUnsubscribe, []byte{})
+			} else {
+				err = send([]byte{'z'})
+			}
 		case "recv":
 			_, err = recv()
 		case "close-ctx":
@@ -327,6 +334,8 @@ func VH11d_answer() {
 				err = setopt(mangos.OptionRetryTime, time.Millisecond)
 			} else if proto == "surveyor" {
 				err = setopt(mangos.OptionSurveyTime, time.Millisecond)
+			} else if proto == "sub" {
+				err = setopt(mangos.OptionReadQLen, 1)
 			} else {
 				err = setopt(mangos.OptionTTL, 3)
 			}
